@@ -9,7 +9,8 @@ EXPLANATION = (
     "after pruning constant-false conditions, in every decoder copy listed for it (dispatch, len_and_friends, fast, "
     "back, fast_back); header field extraction widths/offsets (HLIT/HDIST/HCLEN). CONST: LBASE/LEXT/DBASE/DEXT, "
     "LENFIX (512 slots) and DISTFIX (32) equal tables generated independently from the RFC 1951 text; code-length "
-    "order. Exhaustive over the finite tables. Does not decide that accepted streams decode to the right bytes.")
+    "order. Exhaustive over the finite tables. Does not decide that accepted streams decode to the right bytes. "
+    "GUARD/fast-bit-budget: the fast loop's conditional refill before the distance decode has the constant threshold 28 (15-bit code + 13 extra bits), so valid streams with second-level distance codes decode.")
 
 CLAIM = dict(
     text="Static: the presence, liveness and guarding conditions (RFC constants, masks, relations) of every required "
